@@ -416,12 +416,6 @@ func (d *HeaderFooterDetector) findRepeatingPatterns(candidates []candidate, pag
 
 	for _, normalizedText := range groupKeys {
 		group := groups[normalizedText]
-		// Skip very short text that isn't a page number
-		// Single letters/characters are likely fragments of larger text
-		if len(normalizedText) <= 2 && !isPageNumberPattern(normalizedText) {
-			continue
-		}
-
 		// Check if this text appears on enough pages
 		pageSet := make(map[int]bool)
 		for _, c := range group {
